@@ -2,6 +2,7 @@
 //@ native verif_oracle_random_fresh "bounded stand-in / witness finder (C07): in one process, on two threads, 96 secure_random(32) + 96 secure_random(16) draws, 48 PrivateKey::generate() and 24 key_encrypt calls with identical arguments and library-chosen randomness are pairwise distinct (ephemeral key field, whole file)"
 //@ native verif_oracle_hmac_hkdf "bounded stand-in / witness finder (C19): hmac_sha256 against RFC 2104 built over the crate's sha256 for every key length 0..=140 x 10 data lengths; hkdf_sha256 against RFC 5869 built over that reference for 6 salt x 3 info lengths x 8 output lengths incl. 8160; the Noise nonce layout for 10 counters; X25519 symmetry for 8 key pairs, base-point derivation, all-zero refusal"
 //@ native verif_oracle_key_wipe_sequences "bounded stand-in / witness finder (C20): every sequence of <= 4 operations from {zeroize, clone_from, assign a clone, clone and drop the clone} on a PayloadKey (inline storage inspected after drop_in_place) and on a PrivateKey (heap storage inspected by a counting global allocator at deallocation time), for the constructors new / try_from / clone"
+//@ native verif_oracle_stream_memory "bounded stand-in / witness finder (C11): peak heap growth of the calling thread (counting global allocator) during key_encrypt and pass_encrypt of a 1 MiB and a 6 MiB stream delivered in reads of 65536, 8192, 5000, 100-then-8192, 70000 and 65535 bytes, and during key_decrypt of 256 KiB and 2 MiB files made of full and of 1000-byte chunks: the larger input may not need more than 256 KiB more than the smaller one"
 //@ native verif_oracle_scrypt_kat "bounded stand-in / witness finder (C18): kestrel_crypto::scrypt against OpenSSL's scrypt (python hashlib, computed at check time) on a parameter sweep N in {2,4,16,64} x r in {1,2,3,8} x p in 1..8 x dkLen in {1,31,32,33,64,65,200} with password / salt lengths in {0,1,7,64,65}"
 // Native oracles on the REAL code.  Never counted as proved; a disagreement is a concrete failing input.
 #[cfg(test)]
@@ -26,16 +27,36 @@ mod verif_o_lib {
         }
         false
     }
+    // per-thread heap accounting for the streaming oracle (C11): const-initialised thread locals, no allocation inside
+    thread_local! {
+        static MEASURE: std::cell::Cell<bool> = const { std::cell::Cell::new(false) };
+        static CUR: std::cell::Cell<isize> = const { std::cell::Cell::new(0) };
+        static PEAK: std::cell::Cell<isize> = const { std::cell::Cell::new(0) };
+    }
+    fn account(delta: isize) {
+        let _ = MEASURE.try_with(|m| if m.get() {
+            let _ = CUR.try_with(|c| { let v = c.get() + delta; c.set(v); let _ = PEAK.try_with(|p| if v > p.get() { p.set(v) }); });
+        });
+    }
     unsafe impl GlobalAlloc for Watch {
-        unsafe fn alloc(&self, l: Layout) -> *mut u8 { System.alloc(l) }
+        unsafe fn alloc(&self, l: Layout) -> *mut u8 { account(l.size() as isize); System.alloc(l) }
         unsafe fn dealloc(&self, p: *mut u8, l: Layout) {
             if ARMED.load(Ordering::SeqCst) == 1 && has_mark(p, l.size()) { DIRTY_FREES.fetch_add(1, Ordering::SeqCst); }
+            account(-(l.size() as isize));
             System.dealloc(p, l)
         }
         unsafe fn realloc(&self, p: *mut u8, l: Layout, n: usize) -> *mut u8 {
             if ARMED.load(Ordering::SeqCst) == 1 && has_mark(p, l.size()) { DIRTY_FREES.fetch_add(1, Ordering::SeqCst); }
+            account(n as isize - l.size() as isize);
             System.realloc(p, l, n)
         }
+    }
+    /// peak heap growth (bytes, this thread) while `f` runs
+    fn peak_of<F: FnOnce()>(f: F) -> isize {
+        CUR.with(|c| c.set(0)); PEAK.with(|p| p.set(0)); MEASURE.with(|m| m.set(true));
+        f();
+        MEASURE.with(|m| m.set(false));
+        PEAK.with(|p| p.get())
     }
     #[global_allocator]
     static GLOBAL: Watch = Watch;
@@ -122,6 +143,71 @@ mod verif_o_lib {
         }
         println!("VERIF_ORACLE verif_oracle_key_wipe_sequences cases={} disagreements={} first={:?}", n, bad, first);
         assert!(bad == 0, "key containers released with secret bytes intact in {} of {} cases; first: {:?}", bad, n, first);
+    }
+
+    // ---------------------------------------------------------------- C11: peak heap does not grow with the input
+    struct PatReader { left: usize, sizes: Vec<usize>, i: usize, x: u8 }
+    impl std::io::Read for PatReader {
+        fn read(&mut self, buf: &mut [u8]) -> std::io::Result<usize> {
+            let want = self.sizes[self.i.min(self.sizes.len() - 1)]; self.i += 1;
+            let n = want.min(buf.len()).min(self.left);
+            for b in buf[..n].iter_mut() { self.x = self.x.wrapping_mul(13).wrapping_add(7); *b = self.x; }
+            self.left -= n;
+            Ok(n)
+        }
+    }
+    struct CountSink { n: usize, keep: Option<Vec<u8>> }
+    impl std::io::Write for CountSink {
+        fn write(&mut self, buf: &[u8]) -> std::io::Result<usize> { self.n += buf.len(); if let Some(k) = self.keep.as_mut() { k.extend_from_slice(buf); } Ok(buf.len()) }
+        fn flush(&mut self) -> std::io::Result<()> { Ok(()) }
+    }
+    #[test]
+    fn verif_oracle_stream_memory() {
+        let mut n = 0u32; let mut bad = 0u32; let mut first: Option<String> = None;
+        let s = PrivateKey::try_from(&[0x11u8; 32][..]).unwrap(); let sp = s.to_public().unwrap();
+        let r = PrivateKey::try_from(&[0x22u8; 32][..]).unwrap(); let rp = r.to_public().unwrap();
+        let (small, large) = (1usize << 20, 6usize << 20);
+        let pats: Vec<(&str, Vec<usize>)> = vec![("65536", vec![65536]), ("8192", vec![8192]), ("5000", vec![5000]), ("100 then 8192", vec![100, 8192]), ("70000", vec![70000]), ("65535", vec![65535])];
+        for (name, sizes) in pats.iter() {
+            for mode in ["key", "pass"] {
+                n += 1;
+                let mut peaks = Vec::new();
+                for len in [small, large] {
+                    let mut src = PatReader { left: len, sizes: sizes.clone(), i: 0, x: 1 };
+                    let mut sink = CountSink { n: 0, keep: None };
+                    let pk = peak_of(|| {
+                        if mode == "key" { crate::encrypt::key_encrypt(&mut src, &mut sink, &s, &sp, &rp, None, None, None, AsymFileFormat::V1).unwrap(); }
+                        else { crate::encrypt::pass_encrypt(&mut src, &mut sink, b"pw", [3u8; 32], PassFileFormat::V1).unwrap(); }
+                    });
+                    peaks.push(pk);
+                }
+                // scrypt's own table (N = 32768, r = 8: 32 MiB) is a constant of password mode; what must not happen is growth
+                if peaks[1] > peaks[0] + 262144 {
+                    bad += 1; if first.is_none() { first = Some(format!("{} encryption, reads of {} bytes: peak heap {} bytes for a 1 MiB input but {} bytes for a 6 MiB input", mode, name, peaks[0], peaks[1])); }
+                }
+            }
+        }
+        // decryption of a stream made of short chunks and of full chunks
+        for (name, sizes) in [("65536", vec![65536usize]), ("1000", vec![1000usize])] {
+            n += 1;
+            let mut peaks = Vec::new();
+            for len in [small / 4, small * 2] {
+                let mut src = PatReader { left: len, sizes: sizes.clone(), i: 0, x: 1 };
+                let mut ct = CountSink { n: 0, keep: Some(Vec::new()) };
+                crate::encrypt::key_encrypt(&mut src, &mut ct, &s, &sp, &rp, None, None, None, AsymFileFormat::V1).unwrap();
+                let ctb = ct.keep.unwrap();
+                let mut sink = CountSink { n: 0, keep: None };
+                let mut rd = &ctb[..];
+                let pk = peak_of(|| { crate::decrypt::key_decrypt(&mut rd, &mut sink, &r, &rp, AsymFileFormat::V1).unwrap(); });
+                peaks.push(pk);
+                if sink.n != len { bad += 1; if first.is_none() { first = Some(format!("decryption of a {}-byte stream released {} bytes", len, sink.n)); } }
+            }
+            if peaks[1] > peaks[0] + 262144 {
+                bad += 1; if first.is_none() { first = Some(format!("key decryption, file encrypted from reads of {} bytes: peak heap {} bytes for 256 KiB of plaintext but {} bytes for 2 MiB", name, peaks[0], peaks[1])); }
+            }
+        }
+        println!("VERIF_ORACLE verif_oracle_stream_memory cases={} disagreements={} first={:?}", n, bad, first);
+        assert!(bad == 0, "peak memory grows with the input in {} of {} cases; first: {:?}", bad, n, first);
     }
 
     // ---------------------------------------------------------------- C07
